@@ -356,6 +356,10 @@ int main(void) {
           sdk_quiet_gpio = 0;
           snapshot(0);
         }
+      } else if (!strcmp(op, "rscancel") && ops_ntok == 2) { /* forget the task of shutter i (set-up between requests) */
+        int i = atoi(ops_tok[1]);
+        if (i >= 0 && i < RS_MAX_COUNT && supla_rs_cfg[i].up) supla_esp_gpio_rs_cancel_task(&supla_rs_cfg[i]);
+        snapshot(0);
       } else if (!strcmp(op, "rsmargin") && ops_ntok == 3) { /* AdditionalTimeMargin of shutter i as the channel config sets it */
         int i = atoi(ops_tok[1]);
         if (i >= 0 && i < RS_MAX_COUNT && supla_rs_cfg[i].up) {
